@@ -104,7 +104,9 @@ func ruleCapabilityPresent(c *Ctx, rule string) {
 		var missing []string
 		known := 0
 		for name := range ts.Types {
+			tsTypesMu.Lock()
 			t := tsTypes[name]
+			tsTypesMu.Unlock()
 			if t == nil {
 				continue // nil: the assertion is false for a nil reader anyway
 			}
@@ -353,6 +355,7 @@ func ruleSizeWithBytes(c *Ctx, rule string) {
 // ---- nothing in the storage layer deletes ---------------------------------------------------------------------
 
 func ruleNoDestructiveFS(c *Ctx, rule string) {
+	c.Robust(rule)
 	c.Rule(rule, "files and directories are never removed behind the user's back: os.Remove, os.RemoveAll, os.Rename and os.Truncate are called only from ClearDataDir (the test helper) — in particular no error path or deferred clean-up of CREATE DATABASE / USE deletes anything: `CREATE DATABASE x` for an existing x is refused AFTER the directory has been 'made', and a clean-up keyed on the returned error would delete the existing database")
 	w := c.W
 	destructive := []string{"os.Remove", "os.RemoveAll", "os.Rename", "os.Truncate"}
